@@ -105,4 +105,38 @@ def regSafe (s : RegSt) : Bool := !(s.pcA == .done && s.pcB == .done) || (s.hasA
 
 def regReachClosed (ex : Bool) : Bool := (regReach ex).all fun s => (regSuccs ex s).all fun s' => (regReach ex).contains s'
 
+/-! ### `Server.subscribe` against `PushBlock` (block-stream server, C20)
+
+The producer pushes blocks 0, 1, 2, …; one subscriber takes its burst from the buffer (a snapshot of what was pushed
+so far) and registers itself in the fan-out list. `atomic` = the two happen under the server's write lock, which
+excludes `PushBlock` (read lock). -/
+
+structure SubSt where
+  pushed     : Nat               -- blocks pushed so far (block k is the (k+1)-th push)
+  snap       : Option Nat        -- how many blocks had been pushed when the burst was taken
+  registered : Bool              -- the subscription is in the fan-out list
+  live       : List Nat          -- blocks fanned out to it after registration
+deriving DecidableEq, Repr
+
+inductive SAct where | push | snapshot | register | subscribeLocked
+deriving DecidableEq, Repr
+
+def lockInit : SubSt := ⟨0, none, false, []⟩
+
+/-- one step; a disabled action leaves the state unchanged -/
+def lockStep (atomic : Bool) (s : SubSt) : SAct → SubSt
+  | .push => { s with pushed := s.pushed + 1, live := if s.registered then s.live ++ [s.pushed] else s.live }
+  | .snapshot => if !atomic && s.snap.isNone then { s with snap := some s.pushed } else s
+  | .register => if !atomic && s.snap.isSome && !s.registered then { s with registered := true } else s
+  | .subscribeLocked => if atomic && s.snap.isNone then { s with snap := some s.pushed, registered := true } else s
+
+def lockRun (atomic : Bool) (s : SubSt) (sched : List SAct) : SubSt := sched.foldl (lockStep atomic) s
+
+/-- what the subscriber has been handed: its burst may cover any block below the snapshot, the fan-out must cover
+    every block from the snapshot on -/
+def lockGapless (s : SubSt) : Prop :=
+  match s.snap with
+  | some k => s.registered = true → s.live = List.range' k (s.pushed - k)
+  | none => True
+
 end BstreamVerif.Conc.Locks
